@@ -30,6 +30,8 @@ MoveTimes == {0, 1, 4, 5, 6, 50, 200, 1000, 2147483647}
 VARIABLE g
 Init == g \in [kind : {"clock"}, side : {"w", "b"}, own : Clocks, opp : {0, 1000, 2147483647}, inc : Incs, oinc : {0, 10000}]
             \cup [kind : {"movetime"}, side : {"w", "b"}, mt : MoveTimes]
+            \* a fixed move time together with clocks: the move time is the time available
+            \cup [kind : {"both"}, side : {"w", "b"}, mt : {0, 6, 200}, own : {0, 300000}, opp : {1000}, inc : {0, 10000}, oinc : {0}]
 Next == UNCHANGED g
 Spec == Init /\ [][Next]_g
 
@@ -38,7 +40,7 @@ SafeBudget(clock, inc) == IF inc >= 2147483647 - (clock \div 50) THEN Max(Min(21
 
 InvBudgetAllowed ==
   IF g.kind = "clock" THEN SafeBudget(g.own, g.inc) \in Allowed(g.own)
-  ELSE MoveTimeBudget(g.mt) \in Allowed(g.mt)
+  ELSE MoveTimeBudget(g.mt) \in Allowed(g.mt)       \* "movetime" and "both": the move time overrides the clocks
 \* low clocks shorten rather than extend: below the knee, without increment, nothing is allotted
 InvLowClock == (g.kind = "clock" /\ g.inc = 0 /\ g.own <= 7500) => SafeBudget(g.own, g.inc) = 0
 
